@@ -306,6 +306,39 @@ def run(ctx, rep):
            'day = day number - [1 + 29(m-1) + floor(m/2) + 354(y-1) + floor((3+11y)/30) + 227015 - 1] + 1' if v == 'equal' else
            f'day of month is {F.show_poly(cn.cf(Dm), show)[:300]}')
 
+    # ---- R17.14 every floor in the day-number formulas is taken of an exactly computed quotient ---------------------------
+    def exact(t):
+        """'int' = integer valued and computed exactly in f64; 'quot' = one correctly rounded division of exact integers"""
+        t = strip(t) if t[0] == 'cast' and 'IntToFloat' in str(t[3] if len(t) > 3 else '') else t
+        if is_const(t):
+            v = const_f64(t)
+            return 'int' if v is not None and float(v).is_integer() else None
+        if t[0] == 'cast':
+            return exact(t[2])
+        if t[0] == 'bin' and t[1] in ('Add', 'Sub', 'Mul'):
+            return 'int' if exact(t[2]) == 'int' and exact(t[3]) == 'int' else None
+        if t[0] == 'bin' and t[1] == 'Div':
+            return 'quot' if exact(t[2]) == 'int' and exact(t[3]) == 'int' else None
+        if t[0] == 'un' and t[1] == 'Neg':
+            return exact(t[2])
+        if t[0] == 'app' and t[1] == 'floor' and len(t[2]) == 1:
+            return 'int' if exact(t[2][0]) in ('int', 'quot') else None
+        if t[0] in ('param', 'loopval', 'ite', 'field') or t[0] == 'app':
+            return 'int'          # integer-valued leaves (years, months, day numbers, chrono getters)
+        return None
+    inexact = []
+    n_floor = 0
+    for T_ in (G, Dm):
+        for x in subterms(T_):
+            if x and x[0] == 'app' and x[1] == 'floor' and len(x[2]) == 1:
+                n_floor += 1
+                if not is_const(x[2][0]) and exact(x[2][0]) not in ('int', 'quot'):
+                    inexact.append(x)
+    rep.ob('R17.14', 'floor-arguments-exact', not inexact,
+           f'{n_floor} floor operations, each of an exactly computed integer quotient' if not inexact else
+           f'floor is taken of an inexactly computed quantity ({show(inexact[0], maxd=5)[:120]}): where the exact value is an integer the '
+           'rounded one can fall just below it and a whole day is lost (one year in thirty)')
+
     # ---- R17.3 / R17.4 the searches -----------------------------------------------------------------------------------------
     seen = set()
     loops = []
